@@ -79,6 +79,21 @@ CHECKS = {
         "ref": "DESIGN.md section 3 C20", "note": _TB + " Two recorded findings (svd flags by singular-value index; removed points depend on the algorithm's pivot order).",
         "technique": "Coq proof (non-uniqueness / dependence theorems) + rank oracle on the implementation's equations + end-to-end relation",
     },
+    "C15": {
+        "text": "Coq theorems (MathComp, every field, all dimensions): the pseudo-inverse assembled from an SVD and a generalised inverse of the diagonal factor satisfies the four Moore-Penrose conditions; (AB)' = B'A'; a left inverse of a square matrix is its right inverse; packed SymMat addressing is in bounds and injective. Correspondence K/C: every operator combination of Mat/TransMat/Vec/TransVec/SymMat/CovMat, inverse, Cholesky, SVD and pinv of the rebuilt header library (ASan+UBSan) on exhaustive tiny integer operands and random reals, judged exactly over Q inside coqc (MatRun.v); non-conforming dimensions must raise",
+        "ref": "DESIGN.md section 3 C15", "note": _TB + " Floating-point accuracy of SVD / Cholesky is measured by exact residual certificates on the implementation's numbers, not proved.",
+        "technique": "Coq proof (MathComp matrix algebra) + exact-rational judge of the implementation's outputs in vm_compute",
+    },
+    "C16": {
+        "text": "Coq theorems: a zero pivot of a Gram matrix has an exactly zero row and column (what the envelope Cholesky relies on when it zeroes a dependent unknown); a symmetric reordering is a similarity of the normal equations; transposition keeps entries; the column-graph model is symmetric without loops. Correspondence K: SparseMatrix build/transpose/replicate, column graph, connectivity, reverse Cuthill-McKee permutation and inverse, Envelope set/cholDec/solve/inverse, BlockDiagonal::cholDec of the rebuilt library (ASan+UBSan) against dense exact definitions evaluated inside coqc (SparseRun.v) on all 0/1 patterns up to 3x3 and random patterns up to 12x7, arbitrary right-hand sides",
+        "ref": "DESIGN.md section 3 C16", "note": _TB + " The quality (bandwidth) of the ordering is not a correctness matter and is not claimed.",
+        "technique": "Coq proof (MathComp) + dense exact reference evaluated by vm_compute against the sparse kernels",
+    },
+    "C19": {
+        "text": "Coq theorems (Reals/Coquelicot): the local north-east-up frame is orthonormal at every latitude/longitude and the rotation preserves length; the coefficients of the g3 zenith angle, direction and horizontal angle (left target with the opposite sign) are the partial derivatives of the observation functions; acos plus the sign of the triple product recovers every angle in [0, 400 gon); approximate coordinates through a vector with antenna heights are exact for a common vertical (and the pre-repair formulas are refuted by witnesses); LsqSpec theorems for algorithm / order independence. Correspondence K: G3Run.rows (binary64 transliteration of Model::linearization) against the rows of the design matrix and absolute terms dumped from the rebuilt g3 model, judged inside coqc; E: generated ECEF networks through the rebuilt gama-g3 (truth recovered, statistics, four algorithms, shuffled records, project-equation dump re-adjusted by Adj, absolute term = row * (truth - approximation))",
+        "ref": "DESIGN.md section 3 C19", "note": _TB + " gama-g3 linearises once: agreement with the truth is required up to the second-order term of the approximate coordinates' error (stated in the evidence). Azimuths are refused by the g3 parser and are outside the model; deflections of the vertical are zero in the model.",
+        "technique": "Coq proof (Coquelicot derivatives, trigonometric identities by nsatz) + row-by-row model/implementation correspondence in vm_compute + end-to-end predicted relations",
+    },
     "C12": {
         "text": "Coq theorems: str2xml's output is decoded back to the input by standard XML entity decoding for every byte string (hence no raw < or &), and is injective; correspondence K: Strings.str2xml vs GNU_gama::str2xml exhaustively on short strings over an alphabet with all XML specials plus random hostile strings, compared inside coqc",
         "ref": "DESIGN.md section 3 C12",
